@@ -145,7 +145,8 @@ MANIFEST = dict(
           'forks on every exception class the callee contract allows), a failure is recorded with set_exception '
           'before anything else, success is recorded only after _main returned normally in the final task, and the '
           'task never propagates. Coordinator first-writer-wins (C17) then gives: result() returns normally only if '
-          'the final step returned normally.'),
+          'the final step returned normally.'
+          ' Retry loops (GetObjectTask._main, process-pool worker, legacy _get_object / _download_range): one request per attempt, attempts bounded by the configured budget, only stream-level errors are retried.'),
     note=('Abstract steps (_main, _submit, user callbacks) are assumed to raise any Exception (or KeyboardInterrupt '
           'for user code) or return; executor semantics (A-EXECUTOR) and the absence of asynchronous exceptions in '
           'worker threads are assumed; the cross-thread claim that all tasks have finished when result() unblocks is '
